@@ -2442,6 +2442,19 @@ class FileHashStore(HashStore):
         absolute_path = os.path.join(root_dir, *paths)
         return absolute_path
 
+    @staticmethod
+    def _is_path_within_directory(path: Union[str, Path], directory: Union[str, Path]) -> bool:
+        """Check whether a path resolves to a location inside the given directory.
+
+        :param mixed path: Path to check (absolute, or relative to the current directory)
+        :param mixed directory: Directory that must contain the path
+
+        :return: True if the path is located inside the directory
+        """
+        real_directory = os.path.realpath(directory)
+        real_path = os.path.realpath(path)
+        return os.path.commonpath([real_directory, real_path]) == real_directory
+
     def _get_hashstore_data_object_path(self, cid_or_relative_path: str) -> Path:
         """Get the expected path to a hashstore data object that exists using a content identifier.
 
@@ -2455,13 +2468,18 @@ class FileHashStore(HashStore):
         if os.path.isfile(expected_abs_data_obj_path):
             return Path(expected_abs_data_obj_path)
         else:
-            if os.path.isfile(cid_or_relative_path):
+            if os.path.isfile(cid_or_relative_path) and self._is_path_within_directory(
+                cid_or_relative_path, self.objects
+            ):
                 # Check whether the supplied arg is an abs path that exists or not for convenience
+                # (only paths inside '/objects' - never a file outside of the store)
                 return Path(cid_or_relative_path)
             else:
                 # Check the relative path
                 relpath = os.path.join(self.objects, cid_or_relative_path)
-                if os.path.isfile(relpath):
+                if os.path.isfile(relpath) and self._is_path_within_directory(
+                    relpath, self.objects
+                ):
                     return Path(relpath)
                 else:
                     raise FileNotFoundError(
@@ -2479,11 +2497,16 @@ class FileHashStore(HashStore):
         """
         # Form the absolute path to the metadata file
         expected_abs_metadata_path = os.path.join(self.metadata, metadata_relative_path)
-        if os.path.isfile(expected_abs_metadata_path):
+        if os.path.isfile(expected_abs_metadata_path) and self._is_path_within_directory(
+            expected_abs_metadata_path, self.metadata
+        ):
             return Path(expected_abs_metadata_path)
         else:
-            if os.path.isfile(metadata_relative_path):
+            if os.path.isfile(metadata_relative_path) and self._is_path_within_directory(
+                metadata_relative_path, self.metadata
+            ):
                 # Check whether the supplied arg is an abs path that exists or not for convenience
+                # (only paths inside '/metadata' - never a file outside of the store)
                 return Path(metadata_relative_path)
             else:
                 raise FileNotFoundError(
